@@ -120,8 +120,12 @@ func runC22(c *eng.Ctx) {
 				c.Check("R2", "buffer-size-is-length", call.Pos(), eng.Render(call.Common().Args[1]) == "conv:int("+lenV+")", "the buffer has exactly the declared length", eng.Render(call.Common().Args[1]))
 			case "io.ReadFull":
 				c.Check("R2", "reads-exactly-length", call.Pos(), strings.HasPrefix(eng.Render(call.Common().Args[1]), "(*encoding.ProtobufDecoder).bufferWithSize(p0, conv:int("+lenV+"))") && eng.Render(call.Common().Args[0]) == "p0.reader", "exactly the declared number of bytes is read from the stream (ReadFull)")
-			case "google.golang.org/protobuf/proto.Unmarshal":
-				c.Check("R2", "unmarshals-what-was-read", call.Pos(), strings.HasPrefix(eng.Render(call.Common().Args[0]), "(*encoding.ProtobufDecoder).bufferWithSize(p0, ") && eng.Render(call.Common().Args[1]) == "p1", "the bytes read are unmarshalled into the caller's message")
+			case "google.golang.org/protobuf/proto.Unmarshal", "(google.golang.org/protobuf/proto.UnmarshalOptions).Unmarshal":
+				a := call.Common().Args
+				if len(a) == 3 { // the options value is the receiver
+					a = a[1:]
+				}
+				c.Check("R2", "unmarshals-what-was-read", call.Pos(), strings.HasPrefix(eng.Render(a[0]), "(*encoding.ProtobufDecoder).bufferWithSize(p0, ") && eng.Render(a[1]) == "p1", "the bytes read are unmarshalled into the caller's message")
 			}
 		}
 		c.Check("R2", "limit-positive", dec.Pos(), limit > 0 && limit < 1<<31, "the size limit is a positive value that fits an int on every platform", fmt.Sprint(limit))
